@@ -288,15 +288,27 @@ def run(ctx):
         ctx.count('enum_cases', n)
 
     # ---- phase random ----------------------------------------------------------------------------
-    N = ctx.pick(20_000, 125_000)
+    N = ctx.pick(20_000, 100_000)
     for i, rng in ctx.cases(N, 'random'):
         users, free, fm = gen_case(rng)
         evaluate(users, free, fm)
     loop.close()
 
 
-# Breaks tried in a scratch worktree (VERIF_REPO=/tmp/scratch-bp, quick tier); see the report at the bottom
-# of this file: BREAKS.
 BREAKS = """
-(filled in after validation)
+Breaks applied one at a time to batch/batch/driver/instance_collection/pool.py in a scratch worktree
+(VERIF_REPO=/tmp/scratch-bp ./check C11, quick tier):
+  DESIGN  `if cores_to_allocate >= free` for `>`              NOT CAUGHT - equivalent mutant: equality means
+          free/n == allocation-mark exactly, so the break branch sets the same mark and free=0.
+  DESIGN  drop `+ 0.5` in `mark += int(free/n + 0.5)`          NOT CAUGHT - by design: truncating the level is
+          still "within rounding" (every user within 1 mcpu of the exact share, total never above free);
+          the property does not prescribe round-to-nearest.
+  DESIGN  drop `+ 0.5` in allocate_cores                       NOT CAUGHT - no-op: mark and running are ints.
+  own     `while free_cores_mcpu >= 0`                         NOT CAUGHT - equivalent (a zero budget only moves
+          users between the two sets; every later step allocates 0).
+  own     `+ 1.5` (round up past nearest)                      caught: alloc/exceeds-ready, total/exceeds-free, level/*
+  own, subtle  allocation = lowest_total (ignores a pending user whose running cores lie between the mark and the
+          lowest total)                                        caught: level/user-above-water-level, level/user-below-water-level
+  own, subtle  `free_cores_mcpu -= allocation - mark` (forgets the number of allocating users; needs >= 2
+          allocating users and a later step)                   caught: total/exceeds-free, level/user-above-level-served
 """
